@@ -1,7 +1,11 @@
 ---------------------------- MODULE MC_MacroGuards ----------------------------
 EXTENDS MacroGuards, Json, IOUtils, SequencesExt
-Adapt2 == UNION {[1..k -> {"copied", "enumerate", "flatten", "map", "rev", "skip"}] : k \in 0..2}
-ConsSet == {<<>>} \cup {<<c>> : c \in {"count", "next", "rfind", "rfold", "rposition", "find"}}
+CONSTANTS Adapters2,    \* adapters of the chains of length 0..2
+          Adapters3,    \* adapters of the chains of length 3 (empty: none)
+          Consumers
+ASSUME Adapters2 \cup Adapters3 \subseteq KnownAdapters /\ Consumers \subseteq KnownConsumers
+Adapt2 == UNION {[1..k -> Adapters2] : k \in 0..2} \cup (IF Adapters3 = {} THEN {} ELSE [1..3 -> Adapters3])
+ConsSet == {<<>>} \cup {<<c>> : c \in Consumers}
 Chains == {a \o c : a \in Adapt2, c \in ConsSet}
 DslDescs == {DslDesc(ms, 0, 0) : ms \in Chains}
               \cup UNION {{DslDesc(ms, q, 0) : q \in {p \in 1..Len(ms) : ms[p] \in ArglessMethods}} : ms \in Chains}
